@@ -39,7 +39,7 @@ def showOutcome : Outcome → String
   | .err (.status c p) => s!"e{c}:{dash p}"
   | .err .transport => "terr"
   | .err .ctx => "ctx"
-  | .err .noNonce => "nononce"
+  | .err .noNonce => "other"     -- an untyped errors.New value: no class of its own on the wire protocol
   | .err .exists_ => "exists"
 
 def joinOr (l : List String) : String := if l.isEmpty then "-" else ",".intercalate l
